@@ -51,6 +51,7 @@ type World struct {
 	memo      map[string]interface{}
 
 	sigSubst     map[*ssa.Parameter]ssa.Value // C16-T: parameters of a template helper standing for the call's arguments
+	htmlType1    *int64
 	escFuncParam ssa.Value // set while a shared sanitiser helper is examined: the parameter that holds the escape lookup
 }
 
